@@ -221,3 +221,35 @@ def strain_reference(sf, r, nlterms):
     out['kyy'] = (-wyy, wyyt)
     out['kxy'] = (-2 * wxy, 2 * wxyt)
     return out, wrong
+
+
+def clt_abd(stack, plyts, laminaprops, offset=0.0):
+    """Classical lamination theory, written independently of compmech.composite: 6x6 ABD matrix of a stack of
+    orthotropic plies (angles in degrees, bottom ply first), reference surface shifted by `offset` from the mid-plane.
+    laminaprops entries: (E1, E2, nu12, G12, G13, G23)."""
+    A = np.zeros((3, 3))
+    B = np.zeros((3, 3))
+    D = np.zeros((3, 3))
+    h = float(sum(plyts))
+    z0 = -h / 2.0 + offset
+    for ang, t, prop in zip(stack, plyts, laminaprops):
+        E1, E2, nu12, G12 = prop[0], prop[1], prop[2], prop[3]
+        nu21 = nu12 * E2 / E1
+        den = 1.0 - nu12 * nu21
+        Q11, Q22, Q12, Q66 = E1 / den, E2 / den, nu12 * E2 / den, G12
+        th = np.deg2rad(ang)
+        c, s_ = np.cos(th), np.sin(th)
+        c2, s2, c4, s4 = c * c, s_ * s_, c ** 4, s_ ** 4
+        Qb11 = Q11 * c4 + 2 * (Q12 + 2 * Q66) * s2 * c2 + Q22 * s4
+        Qb22 = Q11 * s4 + 2 * (Q12 + 2 * Q66) * s2 * c2 + Q22 * c4
+        Qb12 = (Q11 + Q22 - 4 * Q66) * s2 * c2 + Q12 * (s4 + c4)
+        Qb66 = (Q11 + Q22 - 2 * Q12 - 2 * Q66) * s2 * c2 + Q66 * (s4 + c4)
+        Qb16 = (Q11 - Q12 - 2 * Q66) * s_ * c * c2 + (Q12 - Q22 + 2 * Q66) * s_ * s2 * c
+        Qb26 = (Q11 - Q12 - 2 * Q66) * s_ * s2 * c + (Q12 - Q22 + 2 * Q66) * s_ * c * c2
+        Qb = np.array([[Qb11, Qb12, Qb16], [Qb12, Qb22, Qb26], [Qb16, Qb26, Qb66]])
+        z1 = z0 + t
+        A += Qb * (z1 - z0)
+        B += Qb * (z1 ** 2 - z0 ** 2) / 2.0
+        D += Qb * (z1 ** 3 - z0 ** 3) / 3.0
+        z0 = z1
+    return np.block([[A, B], [B, D]])
